@@ -373,12 +373,21 @@ func (s *service) getValidators(txes ...dbft.Transaction[util.Uint256]) []dbft.P
 			// can't accept blocks (and doesn't know its height).
 			return nil
 		}
+		// Nothing else runs this queue for P2P-based state synchronisation
+		// (stateSyncCallBack does it for the NeoFS-based one). It asks the
+		// module for its height, which is known since this stage only.
+		if s.bSyncQueueRun.CompareAndSwap(false, true) {
+			go s.bSyncQueue.Run()
+		}
 		return s.bSyncQueue.Put(block)
 	}
 	return s.bQueue.Put(block)""", """	if !s.stateSync.IsActive() {
 		return s.bQueue.Put(block)
 	}
 	if s.stateSync.NeedBlocks() {
+		if s.bSyncQueueRun.CompareAndSwap(false, true) {
+			go s.bSyncQueue.Run()
+		}
 		return s.bSyncQueue.Put(block)
 	}
 	return nil""")])]),
@@ -695,12 +704,140 @@ func (s *service) getValidators(txes ...dbft.Transaction[util.Uint256]) []dbft.P
  ("r8-server-start-queue-order", ["C20"], "Server.Start: the queues started in another order",
   [("pkg/network/server.go", [("""	go s.bQueue.Run()
 	go s.bFetcherQueue.Run()
-	if !s.config.NeoFSStateSyncExtensions {""", """	go s.bFetcherQueue.Run()
+	if s.NeoFSBlockFetcherCfg.Enabled""", """	go s.bFetcherQueue.Run()
 	go s.bQueue.Run()
-	if !s.config.NeoFSStateSyncExtensions {""")])]),
+	if s.NeoFSBlockFetcherCfg.Enabled""")])]),
  ("r8-tojson-abs-cmp-var", ["C17"], "toJSON: the limit bound to a local",
   [("pkg/vm/stackitem/json.go", [("""		if it.Big().CmpAbs(big.NewInt(MaxAllowedInteger)) == 1 {""", """		limit := big.NewInt(MaxAllowedInteger)
 		if it.Big().CmpAbs(limit) == 1 {""")])]),
+ # batch 8: variants for the rules of round 8
+ ("r9-getprivate-cache-local", ["C04", "C01"], "GetPrivate: the empty cache map through a local",
+  [("pkg/core/dao/dao.go", [("""	d.nativeCache = make(map[int32]NativeContractCache)
+	return d""", """	emptyCaches := make(map[int32]NativeContractCache)
+	d.nativeCache = emptyCaches
+	return d""")])]),
+ ("r9-persistnativecache-inline", ["C04", "C01"], "persistNativeCache: the lower layer named inline",
+  [("pkg/core/dao/dao.go", [("""	lower := dao.nativeCachePS
+	maps.Copy(lower.nativeCache, dao.nativeCache)""", """	maps.Copy(dao.nativeCachePS.nativeCache, dao.nativeCache)""")])]),
+ ("r9-getcache-copy-inline", ["C04", "C01"], "getCache: the copy stored without a local",
+  [("pkg/core/dao/dao.go", [("""			cp := v.Copy()
+			dao.nativeCache[k] = cp
+			return cp""", """			dao.nativeCache[k] = v.Copy()
+			return dao.nativeCache[k]""")])]),
+ ("r9-newinteropctx-fees-merged", ["C04", "C01", "C07"], "newInteropContext: the two fee lookups under one test",
+  [("pkg/core/blockchain.go", [("""		baseExecFee = bc.policy.GetExecFeeFactorInternal(d)
+	}
+	baseStorageFee := int64(native.DefaultStoragePrice) * vm.ExecFeeFactorMultiplier
+	if block == nil || block.Index != 0 {
+		// Use provided dao instead of Blockchain's one to fetch possible StoragePrice
+		// changes that were not yet persisted to Blockchain's dao.
+		baseStorageFee = bc.policy.GetStoragePriceInternal(d)
+	}""", """		baseExecFee = bc.policy.GetExecFeeFactorInternal(d)
+	}
+	baseStorageFee := int64(native.DefaultStoragePrice) * vm.ExecFeeFactorMultiplier
+	if notGenesis := block == nil || block.Index != 0; notGenesis {
+		baseStorageFee = bc.policy.GetStoragePriceInternal(d)
+	}""")])]),
+ ("r9-posttransfer-skip-split", ["C05", "C16"], "postTransfer: the two reasons to skip the callback tested separately",
+  [("pkg/core/native/native_nep17.go", [("""	if to == nil || !callOnPayment {
+		continuation()
+		return
+	}""", """	if to == nil {
+		continuation()
+		return
+	}
+	if !callOnPayment {
+		continuation()
+		return
+	}""")])]),
+ ("r9-feepair-local", ["C08"], "checkTxConflicts: the released fee through a local",
+  [("pkg/core/mempool/mem_pool.go", [("""			expectedPayerFee.feeSum.SubUint64(&expectedPayerFee.feeSum, uint64(conflictingTx.SystemFee+conflictingTx.NetworkFee))""", """			released := uint64(conflictingTx.SystemFee + conflictingTx.NetworkFee)
+			expectedPayerFee.feeSum.SubUint64(&expectedPayerFee.feeSum, released)""")])]),
+ ("r9-pow-exp-two-tests", ["C12", "C13"], "POW: the fits test and the bound as two statements",
+  [("pkg/vm/vm.go", [("""		if ei := exp.Uint64(); !exp.IsUint64() || ei > maxSHLArg {
+			panic("invalid exponent")
+		}""", """		if !exp.IsUint64() {
+			panic("invalid exponent")
+		}
+		if exp.Uint64() > maxSHLArg {
+			panic("invalid exponent")
+		}""")])]),
+ ("r9-reversetop-separate-ifs", ["C13", "C12"], "Stack.ReverseTop: the else-if chain as separate tests",
+  [("pkg/vm/stack.go", [("""	if n < 0 {
+		return errors.New("negative index")
+	} else if n > l {
+		return errors.New("too big index")
+	} else if n <= 1 {
+		return nil
+	}
+
+	slices.Reverse(s.elems[l-n : l])""", """	if n < 0 {
+		return errors.New("negative index")
+	}
+	if l < n {
+		return errors.New("too big index")
+	}
+	if n <= 1 {
+		return nil
+	}
+
+	slices.Reverse(s.elems[l-n : l])""")])]),
+ ("r9-pickitem-bound-swapped", ["C13", "C12"], "PICKITEM on bytes: the bound test with swapped operands",
+  [("pkg/vm/vm.go", [("""			arr := obj.Bytes()
+			if index < 0 || index >= len(arr) {
+				msg := fmt.Sprintf("The value %d is out of range.", index)
+				v.throw(stackitem.NewByteArray([]byte(msg)))
+				return
+			}""", """			arr := obj.Bytes()
+			if index < 0 || len(arr) <= index {
+				msg := fmt.Sprintf("The value %d is out of range.", index)
+				v.throw(stackitem.NewByteArray([]byte(msg)))
+				return
+			}""")])]),
+ ("r9-checkscope-one-condition", ["C15"], "checkScope: the CustomContracts bit and the list in one condition",
+  [("pkg/core/interop/runtime/witness.go", [("""			if c.Scopes&transaction.CustomContracts != 0 {
+				currentScriptHash := ic.VM.GetCurrentScriptHash()
+				if slices.Contains(c.AllowedContracts, currentScriptHash) {
+					return true, nil
+				}
+			}""", """			if c.Scopes&transaction.CustomContracts != 0 && slices.Contains(c.AllowedContracts, ic.VM.GetCurrentScriptHash()) {
+				return true, nil
+			}""")])]),
+ ("r9-oracle-originaltx-local", ["C15"], "Oracle.RequestInternal: the original transaction through a local",
+  [("pkg/core/native/oracle.go", [("""	req := &state.OracleRequest{
+		OriginalTxID:     o.getOriginalTxID(ic.DAO, ic.Tx),""", """	origin := o.getOriginalTxID(ic.DAO, ic.Tx)
+	req := &state.OracleRequest{
+		OriginalTxID:     origin,""")])]),
+ ("r9-neo-initcache-next-local", ["C19", "C01"], "NEO.InitializeCache: the next height through a local",
+  [("pkg/core/native/native_neo.go", [("""	if n.cfg.ShouldUpdateCommitteeAt(blockHeight + 1) {
+		var numOfCNs = n.cfg.GetNumOfCNs(blockHeight + 1)
+		err := n.updateCachedNewEpochValues(d, cache, blockHeight, numOfCNs)""", """	nextHeight := blockHeight + 1
+	if n.cfg.ShouldUpdateCommitteeAt(nextHeight) {
+		var numOfCNs = n.cfg.GetNumOfCNs(nextHeight)
+		err := n.updateCachedNewEpochValues(d, cache, blockHeight, numOfCNs)""")])]),
+ ("r9-extverify-budget-spelled", ["C19"], "extensibleVerifyMaxGAS spelled as a product",
+  [("pkg/network/extpool/pool.go", [("""const extensibleVerifyMaxGAS = 6000000""", """const extensibleVerifyMaxGAS = 6 * 1000000""")])]),
+ ("r9-statesync-addblock-index-local", ["C20", "C02"], "statesync.AddBlock: the block's index through a local",
+  [("pkg/core/statesync/module.go", [("""	for _, tx := range block.Transactions {
+		if err := cache.StoreAsTransaction(tx, block.Index, nil); err != nil {""", """	height := block.Index
+	for _, tx := range block.Transactions {
+		if err := cache.StoreAsTransaction(tx, height, nil); err != nil {""")])]),
+ ("r9-addmptnodes-restore-init-form", ["C20", "C03"], "AddMPTNodes: the restoring call in the if's init statement",
+  [("pkg/core/statesync/module.go", [("""		nodesErr = s.restoreNode(n.Node)
+		if nodesErr != nil {
+			break
+		}""", """		if nodesErr = s.restoreNode(n.Node); nodesErr != nil {
+			break
+		}""")])]),
+ ("r9-handleblockcmd-needblocks-local", ["C20"], "handleBlockCmd: the module's answer bound to a local",
+  [("pkg/network/server.go", [("""		if !s.stateSync.NeedBlocks() {
+			// Headers or MPT data are not in sync yet, the module
+			// can't accept blocks (and doesn't know its height).
+			return nil
+		}""", """		blockStage := s.stateSync.NeedBlocks()
+		if !blockStage {
+			return nil
+		}""")])]),
 ]
 
 out = "/verif/benign"
